@@ -217,8 +217,12 @@ def coq_regen():
         p = os.path.join(VERIF, "translators", mod + ".py")
         if not os.path.exists(p):
             continue
-        m = importlib.import_module(mod)
-        res[mod] = m.run(REPO, os.path.join(COQ, "theories", "Gen"))
+        try:
+            m = importlib.import_module(mod)
+            res[mod] = m.run(REPO, os.path.join(COQ, "theories", "Gen"))
+        except Exception:  # the source no longer has the shape the translator reads: the model is stale
+            import traceback
+            res[mod] = {"errors": ["translator %s raised: %s" % (mod, traceback.format_exc()[-1200:])], "raised": True}
     return res
 
 
@@ -394,6 +398,10 @@ class Check:
         vo = os.path.join(COQ, tgt)
         if os.path.exists(vo):
             os.remove(vo)
+        genfiles = {"t_params": "Gen_Params", "t_leaf": "Gen_Leaf", "t_abi": "Gen_Abi"}
+        for mod, g in gen.items():
+            if isinstance(g, dict) and g.get("raised") and any(genfiles.get(mod, "?") in f for f in files):
+                self.broken("translator:" + mod, "the model this property is proved about could not be regenerated from the source: " + "; ".join(g["errors"]))
         r = coq_make([tgt] + list(extra_targets))
         obl = coq_obligations(files)
         self.cov["obligations"] = len(obl)
